@@ -154,9 +154,11 @@ TStep(i) ==
             /\ IF sh.closing = 0 THEN TSet(i, "t_h7") /\ UNCHANGED hist ELSE HEnd(i)
             /\ UNCHANGED <<sh, nt>>
       [] t.pc = "t_h7" ->
-            /\ IF sh.opst = 1 THEN sh' = [sh EXCEPT !.opst = 2] /\ TSet(i, "t_h8") /\ UNCHANGED hist
+            /\ IF sh.opst = 1 THEN sh' = [sh EXCEPT !.opst = 2] /\ TSet(i, "t_h7b") /\ UNCHANGED hist
                               ELSE UNCHANGED sh /\ HEnd(i)
             /\ UNCHANGED nt
+      [] t.pc = "t_h7b" ->          \* the token is held: IsActive() again (the slot is this connection's only while it is active)
+            /\ TSet(i, IF sh.closing = 0 THEN "t_h8" ELSE "t_h9") /\ UNCHANGED <<sh, hist, nt>>
       [] t.pc = "t_h8" -> /\ TSet(i, "t_h9") /\ UNCHANGED <<sh, hist, nt>>
       [] t.pc = "t_h9" -> /\ sh' = [sh EXCEPT !.opst = 1] /\ HEnd(i) /\ UNCHANGED nt
       \* Close() called by the handler (onClose): closeBy(user) / force(closing, user); closeCallback(true, ..) cannot take the key this task holds
@@ -336,7 +338,7 @@ Spec == Init /\ [][Next]_vars
 \* ---- the schedule point a goroutine is parked at ----------------------------------------------------
 CcPt(pc) == CASE pc = "cc_det" -> 14 [] pc = "cc_stop" -> 6 [] pc \in {"cc_un", "cc_unspin"} -> 13 [] pc \in {"cc_b1", "cc_b2"} -> 31 [] OTHER -> 0
 TPt(i) == LET pc == T[i].pc IN
-    CASE pc = "t_start" -> 1000 [] pc \in {"t_cs1", "t_cs2", "t_od_gs", "t_od_cs"} -> 33 [] pc \in {"t_act1", "t_act2", "t_h6", "t_l_st", "t_x_st", "t_x_cb"} -> 2
+    CASE pc = "t_start" -> 1000 [] pc \in {"t_cs1", "t_cs2", "t_od_gs", "t_od_cs"} -> 33 [] pc \in {"t_act1", "t_act2", "t_h6", "t_h7b", "t_l_st", "t_x_st", "t_x_cb"} -> 2
       [] pc \in {"t_ulc", "t_od_ul", "t_ulp"} -> 5 [] pc \in {"t_od_lk", "t_x_lk", "t_y_lk", "t_hc_lk"} -> 4
       [] pc = "t_hc_cb" -> 1 [] pc = "t_hc_tr" -> 20 [] pc = "t_hc_tw" -> 21 [] pc = "t_hc_force" -> 3
       [] pc \in {"t_s_len", "t_h1", "t_h2", "t_h3", "t_h5", "t_h8", "t_l_len", "t_x_len", "t_y_len"} -> 31 [] pc = "t_h4" -> 30 [] pc = "t_h7" -> 10 [] pc = "t_h9" -> 11
